@@ -132,15 +132,33 @@ def run(ctx):
     with ctx.timed("holes_emit"):
         houts = common.replay_batch([{"op": "emit", "src": p} for p in hprogs], timeout=3000)
     n_hole_accepted = 0
+    generated = []
     for r, src, o in zip(hrows, hprogs, houts):
         ob = o.get("obs", {})
-        if "crash" in o or "panic" in ob or ob.get("ok") or ob.get("stage") in ("lex", "parse", "check"):
-            continue            # rejected by the checker (the normal case), or generated fine
+        if ob.get("ok"):
+            generated.append((r, src))          # accepted AND generated: rustc is the next judge (below)
+            continue
+        if "crash" in o or "panic" in ob or ob.get("stage") in ("lex", "parse", "check"):
+            continue            # rejected by the checker (the normal case)
         n_hole_accepted += 1
         ctx.fail("hole:accepted-by-the-checker-but-code-generation-fails:" + str(ob.get("stage")),
                  {"src": src, "offender": r["off"], "msg": str(ob.get("msg"))[:400]},
                  "the checker accepts an ill-typed program and the user meets the error in code generation instead",
                  tags=["off:" + r["off"], "expr-ctx:" + r["inner"]])
+    # offenders that even generate Rust: build a few with the real CLI (none exist on a checker without holes)
+    from lib import e2e
+    seen_ctx = set()
+    for r, src in generated:
+        key = (r["off"], r["inner"])
+        if key in seen_ctx or len(seen_ctx) >= 6:
+            continue
+        seen_ctx.add(key)
+        res = e2e.build_run(os.path.join(ctx.work, "hole_build"), src, name="holecase", timeout=1200)
+        if not res["build_ok"]:
+            ctx.fail("hole:accepted-by-the-checker-but-does-not-build", {"src": src, "offender": r["off"], "rustc": res["build_out"][-1500:]},
+                     "the checker accepts an ill-typed program and the user meets the error in rustc instead",
+                     tags=["off:" + r["off"], "expr-ctx:" + r["inner"]])
+    stats["holes_accepted_and_generated"] = len(generated)
     stats["holes_checked"] = len(hrows)
     stats["holes_accepted_and_failing"] = n_hole_accepted
     # ---------------------------------------------------------------- corpus: the repository's own single-file programs
